@@ -224,6 +224,16 @@ Definition np_set2 {F : Type} (a : arr2 F) (i j : Z) (v : F) : res (arr2 F) :=
 (* value stored into a uint16 array: NumPy's cast of an integer index wraps modulo 2^16 *)
 Definition wrap_u16 (z : Z) : Z := z mod 65536.
 
+(* the fields of containers.arguments.ADMMArguments that the translated solver code reads;
+   L is the sparsity weight as passed by the caller (scalar or matrix; opaque here) *)
+Record admm_args (F L : Type) : Type := mk_admm_args {
+  aa_window_size : Z; aa_num_data_series : Z; aa_rho : F; aa_sparsity_weight : L }.
+Arguments mk_admm_args {F L} _ _ _ _.
+Arguments aa_window_size {F L} _.
+Arguments aa_num_data_series {F L} _.
+Arguments aa_rho {F L} _.
+Arguments aa_sparsity_weight {F L} _.
+
 (* ---- facts used by every equivalence proof ---- *)
 Lemma bind_ret {A B : Type} (a : A) (f : A -> res B) : bind (Ret a) f = f a.
 Proof. reflexivity. Qed.
